@@ -250,6 +250,7 @@ Note == Step("Note") /\ s' = s
 Cycle ==
   /\ Step("Cycle") /\ s.phase = "idle"
   /\ Req("C12", Ev.live_after = 0 /\ Ev.mmaps_ok = Ev.munmaps_ok /\ Ev.foreign = 0)
+  /\ Req("C02", Has(Ev, "restored") => Ev.restored)
   /\ Req("C04", Ev.lock # 1)
   /\ s' = s
 Maps ==
